@@ -46,6 +46,7 @@ def relabel(rng, n, kind):
     return labs
 
 
+DEG = {}  # degrees of the current lattice (for the staggered pattern)
 PASSED = []  # (object handed to the builder, float it stood for): must still agree afterwards
 
 
@@ -98,6 +99,11 @@ def coeff_node(rng, sites, form, values=(0.0, 8.0, 1.0, 3.0, 0.5)):
     if rng.random() < 0.25:
         # impurity pattern: most sites carry exactly zero
         truth = {s: (v if rng.random() < 0.3 else 0.0) for s, v in truth.items()}
+    if DEG and rng.random() < 0.2:
+        # staggered pattern: per-bond shares of neighbouring sites cancel exactly (value
+        # proportional to the degree, alternating sign)
+        m_ = rng.choice([0.5, 1.0, 2.0])
+        truth = {s: (m_ * DEG[s] * (1 if k % 2 == 0 else -1)) for k, s in enumerate(sorted(sites, key=repr))}
     objs = {s: typed(rng, v) for s, v in truth.items()}
     if form == "dict":
         return dict(objs), truth
@@ -129,6 +135,8 @@ def lattice_case(ctx, rng, n, edges0, exhaustive_tag=None):
     rng.shuffle(given)
     sites = sorted({v for e in given for v in e})
     deg = {s: sum(1 for e in given if s in e) for s in sites}
+    DEG.clear()
+    DEG.update(deg)
     model = rng.choice(["hubbard", "spinless"])
     sym = rng.choice(["Z2", "U1", "Z2Z2", "U1U1"] if model == "hubbard" else ["Z2", "U1"])
     forms = {k: rng.choice(["scalar", "dict", "callable"]) for k in ("t", "U", "mu", "V")}
